@@ -2,6 +2,7 @@
 from ..core import rng_for, rand_digits, M64, ndig
 from ..oracles import cmd_gcd, cmd_mult, cmd_par
 
+THOROUGH_SEEDS = 30   # the thorough tier repeats its staged workload over this many derived seeds
 RULE = ('pairs: zeros, equal, divisor/multiple (incl. lengths differing by several digits with an even shorter operand), '
         '(u*2^i, v*2^j) with i,j in {0,1,63,64,65,128,200} (trailing zeros spanning digits, unequal), coprime 1..30-digit values, '
         'Fibonacci neighbours, all sign combinations; gcd lcm gcd_lcm extended_gcd extended_gcd_lcm is_multiple_of divides '
